@@ -203,5 +203,48 @@ Proof.
   destruct (2 * 0 <? Z.abs s) eqn:E; [reflexivity|lia].
 Qed.
 
-Lemma pixel_idx_is_nearest p c0 s : pixel_idx p c0 s = pixel_idx_nearest p c0 s.
-Proof. reflexivity. Qed.
+Lemma pixel_idx_signed_nearest p c0 s : s <> 0 -> 0 <= (p - c0) * s ->
+  pixel_idx_signed p c0 s = pixel_idx_nearest p c0 s.
+Proof.
+  intros Hs Hp. unfold pixel_idx_signed, pixel_idx_nearest, round_half_even_signed.
+  assert (E : (p - c0) * Z.sgn s = Z.abs (p - c0)).
+  { destruct (Z.lt_trichotomy s 0) as [H|[H|H]]; [|lia|].
+    - rewrite Z.sgn_neg by lia. assert (p - c0 <= 0) by nia. lia.
+    - rewrite Z.sgn_pos by lia. assert (0 <= p - c0) by nia. lia. }
+  rewrite E. destruct (Z.abs (p - c0) <? 0) eqn:El; [lia|reflexivity].
+Qed.
+
+Lemma pixel_idx_is_nearest p c0 s : s <> 0 -> 0 <= (p - c0) * s ->
+  pixel_idx p c0 s = pixel_idx_nearest p c0 s.
+Proof.
+  intros Hs Hp. unfold pixel_idx. change pixel_round_nearest with true. cbv iota.
+  destruct pixel_signed; [|reflexivity]. now apply pixel_idx_signed_nearest.
+Qed.
+
+Lemma round_half_even_pos n d : 0 < d -> d < 2 * n -> 0 < round_half_even n d.
+Proof.
+  intros Hd Hn. unfold round_half_even.
+  pose proof (Z.div_mod n d ltac:(lia)) as Hdm.
+  pose proof (Z.mod_pos_bound n d Hd) as Hb.
+  set (q := n / d) in *. set (r := n mod d) in *.
+  assert (0 <= q) by nia.
+  destruct (2 * r <? d) eqn:E1; [nia|].
+  destruct (d <? 2 * r) eqn:E2; [lia|].
+  destruct (Z.even q) eqn:Ev; [|lia].
+  assert (q <> 0) by nia. lia.
+Qed.
+
+(* a point more than half a cell before the first centre gets a negative index (is refused as outside) *)
+Lemma pixel_before_first_negative p c0 s : s <> 0 -> (p - c0) * s < 0 -> Z.abs s < 2 * Z.abs (p - c0) ->
+  pixel_idx p c0 s < 0.
+Proof.
+  intros Hs Hp Hh. unfold pixel_idx. change pixel_round_nearest with true. change pixel_signed with true. cbv iota.
+  unfold pixel_idx_signed, round_half_even_signed.
+  assert (E : (p - c0) * Z.sgn s = - Z.abs (p - c0)).
+  { destruct (Z.lt_trichotomy s 0) as [H|[H|H]]; [|lia|].
+    - rewrite Z.sgn_neg by lia. assert (0 < p - c0) by nia. lia.
+    - rewrite Z.sgn_pos by lia. assert (p - c0 < 0) by nia. lia. }
+  rewrite E. destruct (- Z.abs (p - c0) <? 0) eqn:El; [|lia].
+  rewrite Z.opp_involutive.
+  pose proof (round_half_even_pos (Z.abs (p - c0)) (Z.abs s) ltac:(lia) Hh). lia.
+Qed.
